@@ -46,6 +46,16 @@ def _setup_worker():
     import logging
     logging.lastResort = logging.NullHandler()
     logging.raiseExceptions = False
+    old_hook = sys.unraisablehook
+
+    def hook(u):
+        # a weakref callback / __del__ unwound by the end of an execution is not an error
+        if u.exc_type is not None and u.exc_type.__name__ == "SchedAbort":
+            return
+        old_hook(u)
+
+    if getattr(sys.unraisablehook, "__name__", "") != "hook":
+        sys.unraisablehook = hook
     if REPO not in sys.path:
         sys.path.insert(0, REPO)
     stubs = os.path.join(ROOT, "stubs")
